@@ -1098,6 +1098,13 @@ ares_status_t ares_dns_write_buf(const ares_dns_record_t *dnsrec,
 
   orig_len = ares_buf_len(buf);
 
+  /* Name compression pointers are offsets from the start of the DNS message,
+   * but the buffer may already hold other data (the TCP length prefix, earlier
+   * messages).  Hide that data while the message is written so that
+   * ares_buf_len() is the offset within this message. */
+  ares_buf_tag(buf);
+  ares_buf_consume(buf, orig_len);
+
   status = ares_dns_write_header(dnsrec, buf);
   if (status != ARES_SUCCESS) {
     goto done;
@@ -1125,6 +1132,7 @@ ares_status_t ares_dns_write_buf(const ares_dns_record_t *dnsrec,
 
 done:
   ares_llist_destroy(namelist);
+  ares_buf_tag_rollback(buf);
   if (status != ARES_SUCCESS) {
     ares_buf_set_length(buf, orig_len);
   }
